@@ -273,8 +273,9 @@ func (t *topologyPlugin) getJobAllocatableDomains(
 
 	// Validate that the domains do not clash with the chosen domain for active pods of the job
 	var relevantDomainsByLevel domainsByLevel
-	if hasActiveAllocatedTasks(podSets) && hasTopologyRequiredConstraint(subGroup) {
-		relevantDomainsByLevel = getRelevantDomainsWithAllocatedPods(podSets, topologyTree,
+	activePodSets := t.podSetsWithActivePods(job, podSets)
+	if hasActiveAllocatedTasks(activePodSets) && hasTopologyRequiredConstraint(subGroup) {
+		relevantDomainsByLevel = getRelevantDomainsWithAllocatedPods(activePodSets, topologyTree,
 			DomainLevel(subGroup.GetTopologyConstraint().RequiredLevel))
 	} else {
 		relevantDomainsByLevel = topologyTree.DomainsByLevel
@@ -307,6 +308,30 @@ func (t *topologyPlugin) getJobAllocatableDomains(
 	}
 
 	return domains, nil
+}
+
+// podSetsWithActivePods returns the pod sets to consult for the pods of the job that are already active.
+// The reclaim / preempt / consolidation solvers simulate with a representative of the job that holds only
+// the pending tasks; the active pods that pin the required domain are found on the session's job.
+func (t *topologyPlugin) podSetsWithActivePods(
+	job *podgroup_info.PodGroupInfo, podSets map[string]*subgroup_info.PodSet,
+) map[string]*subgroup_info.PodSet {
+	if t.session == nil || t.session.ClusterInfo == nil {
+		return podSets
+	}
+	sessionJob, found := t.session.ClusterInfo.PodGroupInfos[job.UID]
+	if !found || sessionJob == job {
+		return podSets
+	}
+	result := make(map[string]*subgroup_info.PodSet, len(podSets))
+	for name, podSet := range podSets {
+		if sessionPodSet, ok := sessionJob.GetSubGroups()[name]; ok {
+			result[name] = sessionPodSet
+		} else {
+			result[name] = podSet
+		}
+	}
+	return result
 }
 
 func hasActiveAllocatedTasks(podSets map[string]*subgroup_info.PodSet) bool {
